@@ -18,7 +18,8 @@ RULE = ('exhaustive: every unit name x every prefix (20 incl. da) + bare, each '
         'also squared and inverted; bounded-exhaustive: all expressions with '
         '<=2 (quick) / <=3 (thorough) factors over a 12-name alphabet x '
         '{*,/,juxtaposition} x exponents {none,2,-1,0.5} x optional '
-        'parentheses; random nesting to depth 5 / 10 leaves with numeric '
+        'parentheses; decimal fractional exponents that cancel only up to float '
+        'round-off; random nesting to depth 5 / 10 leaves with numeric '
         'factors; conversions between compatible pairs; malformed variants. '
         'Non-trivial = an expression containing >=1 unit name whose value and '
         'all seven exponents were compared (or a malformed text whose '
@@ -413,6 +414,34 @@ def run_shard(ctx):
             if r.random() < 0.3:
                 ast = (ast[0], ast[1], ('par', ast[2]))
             check_valid(ctx, ast, U.render(ast, r), 'sampled 3 factors')
+    # 2b. fractional exponents that cancel only up to float round-off
+    #     (0.1 + 0.2 - 0.3): the result must still be a plain number / the
+    #     remaining exponent must be the exact decimal
+    from fractions import Fraction as Fr
+    decs = ['0.1', '0.2', '0.3', '0.4', '0.6', '0.7', '1.1', '1.3', '2.2',
+            '0.15', '0.05']
+    fam = []
+    for u in ('m', 's', 'kg', 'K', 'mol', 'J', 'Pa'):
+        for a in decs:
+            for b in decs:
+                tot = Fr(a) + Fr(b)
+                c = str(float(tot)) if float(tot) == float(str(float(tot))) \
+                    else None
+                if c is None or Fr(c) != tot:
+                    continue
+                fam.append((u, a, b, c))
+    for j, (u, a, b, c) in enumerate(fam):
+        if not ctx.mine(j):
+            continue
+        pa, pb = ('pow', ('unit', u), a), ('pow', ('unit', u), b)
+        for ast in (('div', ('jux', pa, pb), ('pow', ('unit', u), c)),
+                    ('div', ('mul', pa, pb), ('pow', ('unit', u), a)),
+                    ('mul', ('div', pa, ('pow', ('unit', u), c)), pb),
+                    ('jux', ('pow', ('par', ('div', pa,
+                                              ('pow', ('unit', u), c))),
+                             '2'), ('pow', ('unit', u), b + '0'))):
+            check_valid(ctx, ast, U.render(ast), 'fractional exponents, '
+                                                 'cancelling')
     # 3. random deeper nesting
     nrand = 8000 if ctx.tier == 'quick' else 80000
     r = ctx.sub_rng('c10-rand', ctx.shard)
